@@ -131,6 +131,7 @@ fn expected_for(region: &[u8], kind: u32) -> Option<usize> {
 
 fn run(ctx: &mut Ctx) {
     let arena = Arena::new(3);
+    let big_arena0 = Arena::new(6);
     let quick = ctx.quick() || ctx.dev_profile();
     // ---------------- (a) fields: single-byte perturbations
     ctx.bound("fields", "every kind 0..=21: spec-conformant sample images (1-3 variants per kind) and every single-byte perturbation of every body byte with {00,01,02,04,08,10,20,40,80,FF} (quick tier and dev profile) / with all 256 values (thorough, release), enumerated fields / counts / strides kept legal; region [filler][tag][end]; every public accessor compared with the slice-based reference decoder");
@@ -202,6 +203,32 @@ fn run(ctx: &mut Ctx) {
                 for g in 0..=21u32 {
                     let want = expected_for(&region, g);
                     check_getter(ctx, &arena, &region, g, want, "pairs");
+                }
+            });
+        }
+    }
+    // ---------------- (b2) many tags: every kind present, in every rotation, surrounded by repeated custom tags
+    ctx.bound("many_tags", "regions holding all 21 non-end kinds (EfiBs left out in half of them) in each of the 21 rotations, each kind followed by a custom tag, the whole sequence followed by a second instance of every kind: 60+ tags per region; all 22 getters");
+    for rot in 0..21usize {
+        for with_bs in [false, true] {
+            let kinds: Vec<u32> = (0..21).map(|i| 1 + ((i + rot) % 21) as u32).filter(|k| with_bs || *k != bi::EFI_BS).collect();
+            let mut tags = vec![];
+            for (i, &k) in kinds.iter().enumerate() {
+                tags.push(bi::sample(k, 1, 1));
+                tags.push(bi::sample(bi::CUSTOM + i as u32, i, i % 5));
+            }
+            for &k in kinds.iter() {
+                tags.push(bi::sample(k, 2, 2));
+            }
+            tags.push(bi::end_tag());
+            let region = bi::region(&tags, &bi::marker_pad);
+            let describe = || J::obj().set("part", "many_tags").set("rotation", rot).set("with_efi_bs", with_bs).set("tags", tags.len()).set("region_len", region.len());
+            ctx.leaf(describe, |ctx| {
+                ctx.state(hash::hash_bytes(&region));
+                ctx.nontrivial();
+                for g in 0..=21u32 {
+                    let want = expected_for(&region, g);
+                    check_getter(ctx, &big_arena0, &region, g, want, "many_tags");
                 }
             });
         }
